@@ -1486,9 +1486,7 @@ void readin (void)
 	}
 
 	if (ctrl.do_main == trit_true)
-		visible_define_str ( "YY_MAIN", "1");
-	else if (ctrl.do_main == trit_false)
-		visible_define_str ( "YY_MAIN", "0");
+		visible_define ( "M4_YY_MAIN");
 
 	if (ctrl.do_stdinit)
 		visible_define ( "M4_MODE_DO_STDINIT");
